@@ -1,0 +1,32 @@
+//go:build verif
+
+package detector
+
+import "github.com/makiuchi-d/gozxing"
+
+// Re-exports of unexported Detector steps for the verification harness (/verif, property C06).
+// Nothing here changes behaviour; the file is compiled only with -tags verif.
+
+func (this *Detector) VerifSizeOfBlackWhiteBlackRun(fromX, fromY, toX, toY int) float64 {
+	return this.sizeOfBlackWhiteBlackRun(fromX, fromY, toX, toY)
+}
+
+func (this *Detector) VerifSizeOfBlackWhiteBlackRunBothWays(fromX, fromY, toX, toY int) float64 {
+	return this.sizeOfBlackWhiteBlackRunBothWays(fromX, fromY, toX, toY)
+}
+
+func (this *Detector) VerifCalculateModuleSize(topLeft, topRight, bottomLeft gozxing.ResultPoint) float64 {
+	return this.calculateModuleSize(topLeft, topRight, bottomLeft)
+}
+
+func (this *Detector) VerifComputeDimension(topLeft, topRight, bottomLeft gozxing.ResultPoint, moduleSize float64) (int, error) {
+	return this.computeDimension(topLeft, topRight, bottomLeft, moduleSize)
+}
+
+func (this *Detector) VerifFindAlignmentInRegion(overallEstModuleSize float64, estAlignmentX, estAlignmentY int, allowanceFactor float64) (*AlignmentPattern, error) {
+	return this.findAlignmentInRegion(overallEstModuleSize, estAlignmentX, estAlignmentY, allowanceFactor)
+}
+
+func (f *FinderPatternFinder) VerifCrossCheckDiagonal(centerI, centerJ int) bool {
+	return f.crossCheckDiagonal(centerI, centerJ)
+}
